@@ -506,9 +506,20 @@ impl ToSVG for ScriptedState {
     }
 }
 
+thread_local! {
+    /// upper bound on score() evaluations of one simulated run (scenarios whose run must end
+    /// after a known number of steps although `steps` is astronomically large)
+    pub static CALL_BUDGET: std::cell::Cell<u64> = std::cell::Cell::new(u64::MAX);
+}
+pub const BUDGET_MSG: &str = "verif: score() call budget exhausted";
+
 impl State for ScriptedState {
     fn score(&self) -> Option<f64> {
         let mut rec = self.rec.lock().unwrap();
+        if rec.obs.len() as u64 >= CALL_BUDGET.with(|b| b.get()) {
+            drop(rec);
+            panic!("{}", BUDGET_MSG);
+        }
         let rec = &mut *rec;
         rec.scratch.clear();
         let mut diff = Vec::new();
